@@ -310,9 +310,18 @@ theorem C19_io_keys_step (mk : Ip → Label) (s : Sys) (op : Op) (hwf : Wf s) (h
     · simpa [step, ids, map_connId_setState] using h1
     · simpa [step, ids, map_connId_setState] using h3
   | select v => exact hwf
+  | resock idx sock tok =>
+    simp only [step]
+    split
+    · obtain ⟨h1, h2, h3⟩ := hwf
+      refine ⟨?_, ?_, ?_⟩
+      · simpa [ids, map_connId_setState] using h1
+      · simpa [IoMap.keys_replace] using h2
+      · simpa [ids, map_connId_setState, IoMap.keys_replace] using h3
+    · exact hwf
 
 /-- … hence after ANY sequence of SIGHUPs (accepted, refused, overriding one another), ticks, tracker
-inserts, link-state changes and routing choices, starting from a consistent state, the I/O map is
+inserts, link-state changes, in-place reconnects and routing choices, starting from a consistent state, the I/O map is
 keyed by exactly the live `conn_id`s and those are pairwise distinct. Induction over the run. -/
 theorem C19_io_keys_run (mk : Ip → Label) (s : Sys) (ops : List Op) (hwf : Wf s)
     (hadm : Admissible mk s ops) : Wf (run mk s ops) := by
@@ -321,6 +330,25 @@ theorem C19_io_keys_run (mk : Ip → Label) (s : Sys) (ops : List Op) (hwf : Wf 
   | cons op ops ih =>
     simp only [run, List.foldl_cons]
     exact ih _ (C19_io_keys_step mk s op hwf hadm.1) hadm.2
+
+/-- The hypotheses are satisfiable by a non-trivial run: startup with a duplicated line and a failed
+attempt, a reload that removes, keeps and adds, a refused SIGHUP, an in-place reconnect. -/
+example :
+    let mk := mkLabel "127.0.0.1" 5000
+    let s := startup mk ["127.0.0.1", "127.0.0.1", "10.255.255.1", "127.0.0.2"]
+      [some ⟨1, 1, 0⟩, some ⟨2, 2, 0⟩, none, some ⟨3, 3, 0⟩]
+    let ops : List Op :=
+      [.track 5 3 100, .sighup (some [.ok "127.0.0.2", .bad, .ok "127.0.0.3"]), .mutate 2 7,
+       .tick [some ⟨4, 4, 0⟩], .sighup none, .resock 0 1001 8, .tick [some ⟨5, 5, 0⟩]]
+    Wf s ∧ Admissible mk s ops ∧ Wf (run mk s ops) ∧
+      (run mk s ops).links = [⟨3, "127.0.0.2", mk "127.0.0.2", 8⟩, ⟨4, "127.0.0.3", mk "127.0.0.3", 0⟩] ∧
+      (run mk s ops).io.keys = [4, 3] ∧ (run mk s ops).tracker.get 5 200 = some 3 := by
+  intro mk s ops
+  have hwf : Wf s := C19_io_keys_startup _ _ _ (by decide)
+  have hadm : Admissible mk s ops := by
+    simp only [ops, Admissible, OpFresh, Fresh, and_true, true_and]
+    decide
+  exact ⟨hwf, hadm, C19_io_keys_run mk s ops hwf hadm, by decide, by decide, by decide⟩
 
 /-! ## 6. NAK-attribution records -/
 
@@ -437,7 +465,7 @@ theorem C19_run_survivors (mk : Ip → Label) (s : Sys) (ops : List Op) :
       (pre.map Link.key).Sublist (s.links.map Link.key) ∧ ∀ l ∈ post, l.connId ∈ drawn ops := by
   have := split_run Link.key (s.links.map Link.key) mk ops s [] (Or.inl (fun _ _ => rfl))
     ⟨s.links, [], by simp, List.Sublist.refl _, by simp⟩
-  simpa using this
+  simpa [Split] using this
 
 /-- Without protocol activity in between (reloads, refused reloads, tracker inserts and routing
 choices only) the surviving original links are the very same records — state token included. -/
@@ -447,7 +475,7 @@ theorem C19_run_survivors_records (mk : Ip → Label) (s : Sys) (ops : List Op)
       pre.Sublist s.links ∧ ∀ l ∈ post, l.connId ∈ drawn ops := by
   have := split_run id s.links mk ops s [] (Or.inr hno)
     ⟨s.links, [], by simp, by simp, by simp⟩
-  simpa using this
+  simpa [Split] using this
 
 example :
     let mk := mkLabel "h" 1
@@ -477,15 +505,7 @@ theorem C19_labels_unique (mk : Ip → Label) (hinj : Function.Injective mk) (s 
       apply List.map_congr_left
       intro a ha; exact (hadd a ha).2.2.2
     rw [hmap]
-    clear hmap hlinks hlinks' hadd
-    induction added'.map (·.ip) with
-    | nil => simp
-    | cons x xs ih =>
-      rw [List.nodup_cons] at hipnd
-      rw [List.map_cons, List.nodup_cons]
-      refine ⟨fun hmem => ?_, ih hipnd.2⟩
-      obtain ⟨y, hy, hxy⟩ := List.mem_map.1 hmem
-      exact hipnd.1 (hinj hxy ▸ hy)
+    exact nodup_map_of_injective mk hinj _ hipnd
   · intro a ha b hb hab
     obtain ⟨l, hl, rfl⟩ := List.mem_map.1 ha
     obtain ⟨a', ha', rfl⟩ := List.mem_map.1 hb
